@@ -1,7 +1,7 @@
 (* Extraction of the hand-written executable model (T-cor for C11). ExtrOcamlBasic only. *)
 From Coq Require Import ZArith List Extraction ExtrOcamlBasic.
 From MomoCommon Require Import GenPrelude.
-From C11 Require GrowModel Gen_PolicyBase Gen_PolicyOpen2N2 Gen_PolicyOpen8 Gen_IndexBase Gen_IndexOpen2N2 Gen_IndexOpen8 Gen_Buckets Gen_HashSetGrow Gen_Open2N2 Gen_Open2N2_ops Gen_OpenN1 Gen_OpenN1_ops Gen_P4 Gen_P4A Gen_One.
+From C11 Require GrowModel Gen_PolicyBase Gen_PolicyOpen2N2 Gen_PolicyOpen8 Gen_IndexBase Gen_IndexOpen2N2 Gen_IndexOpen8 Gen_Buckets Gen_HashSetGrow Gen_Open2N2 Gen_Open2N2_ops Gen_OpenN1 Gen_OpenN1_ops Gen_P4 Gen_P4A Gen_One Gen_HashSetMove.
 Separate Extraction GrowModel.cfg_step GrowModel.cfg_init GrowModel.cfg_shape GrowModel.cfg_find GrowModel.cfg_traverse
   GrowModel.gens GrowModel.count GrowModel.capacity
   Gen_PolicyBase.CalcCapacity Gen_PolicyBase.GetBucketCountShift Gen_PolicyOpen2N2.CalcCapacity Gen_PolicyOpen2N2.GetBucketCountShift
@@ -11,4 +11,5 @@ Separate Extraction GrowModel.cfg_step GrowModel.cfg_init GrowModel.cfg_shape Gr
   Gen_Open2N2_ops.pvSetEmpty Gen_Open2N2_ops.AddCrt Gen_Open2N2_ops.Remove Gen_Open2N2_ops.UpdateMaxProbe Gen_Open2N2_ops.Clear Gen_Open2N2_ops.pvGetCount Gen_Open2N2_ops.IsFull
   Gen_OpenN1_ops.pvSetEmpty Gen_OpenN1_ops.AddCrt Gen_OpenN1_ops.Remove Gen_OpenN1_ops.Clear Gen_OpenN1_ops.pvGetCount Gen_OpenN1_ops.IsFull Gen_OpenN1.UpdateMaxProbe
   Gen_P4A.AddCrt Gen_P4A.Remove Gen_P4A.Clear Gen_P4A.IsFull Gen_P4A.WasFull Gen_P4A.pvGetCount Gen_P4A.pvSetEmpty Gen_P4A.pvGetMemPoolIndex
-  Gen_One.AddCrt Gen_One.Remove Gen_One.Clear Gen_One.IsFull Gen_One.WasFull.
+  Gen_One.AddCrt Gen_One.Remove Gen_One.Clear Gen_One.IsFull Gen_One.WasFull
+  Gen_HashSetMove.pvAddNogrow_loop0 Gen_HashSetMove.pvRelocateItems_b_loop0.
